@@ -23,7 +23,8 @@ SCOPES = {
         hybrid=[dict(Dim=1, P=4, MinN=4, MaxN=4, MaxK=3, Cuts=[0, 1], MetricsUsed=["l2sq"], MaxSweeps=1, WarmMax=0)]),
     "thorough": dict(
         pam=[dict(Dim=1, P=5, MinN=4, MaxN=5, MaxK=2, MetricsUsed=["l1", "l2sq"], MaxSweeps=2, ExplicitProps=True),
-             dict(Dim=2, P=2, MinN=4, MaxN=4, MaxK=3, MetricsUsed=["linf"], MaxSweeps=1, ExplicitProps=True)],
+             # (MaxK=3 on the 2 x 2 grid did not finish in 50 minutes; MaxK=2: 4.7 million states, two minutes)
+             dict(Dim=2, P=2, MinN=4, MaxN=4, MaxK=2, MetricsUsed=["linf"], MaxSweeps=1, ExplicitProps=True)],
         hybrid=[dict(Dim=1, P=5, MinN=4, MaxN=5, MaxK=3, Cuts=[0, 1], MetricsUsed=["l1", "l2sq"], MaxSweeps=2, WarmMax=1)]),
 }
 
